@@ -307,6 +307,10 @@ def check_linear(rep: Report, prog: Program) -> None:
     if not raises:
         rep.ob(rule, f.fq(), 'raise ValueError on non-linear recursion', f.loc(), False, '`linear` contains no raise statement at all')
         return
+    from ..util import check_raise_type
+    for rn in sorted(raises):
+        if isinstance(cfg.nodes[rn].stmt, ast.Raise):
+            check_raise_type(rep, rule + ' exception type', prog, f, cfg.nodes[rn].stmt, 'ValueError', 'non-linear recursion')
     terms: Dict[str, str] = {}
     tests = []
     for n, nd in cfg.nodes.items():
